@@ -111,13 +111,13 @@ def pair_continuation(ctx, i, spec, n, rng, case):
     for j, p in enumerate(parts):
         d = dt
         if j > 0 and rng.random() < 0.6:
-            u = rng.choice([u for u in SI.units('TimeInterval') if u != dt['u']])
+            u = rng.choice([u for u in GEN.time_units_for(GEN.qsi(dt)) if u != dt['u']] or [dt['u']])
             d = GEN.reexpress(dt, u)
-            unit_change = True
+            unit_change = u != dt['u']
         Tq = GEN.mulq(dt, p)
         Tq = GEN.reexpress(Tq, d['u']) if d['u'] != dt['u'] else Tq
         if rng.random() < 0.3:
-            Tq = GEN.reexpress(Tq, rng.choice(SI.units('TimeInterval')))
+            Tq = GEN.reexpress(Tq, rng.choice(GEN.time_units_for(GEN.qsi(dt))))
         sched.append({'op': 'run', 'dt': d, 'T': Tq})
     split['schedule'] = sched
     case = dict(case, pair='continuation')
@@ -166,7 +166,7 @@ def pair_reset(ctx, i, spec, n, rng, case):
     cont = rng.random() < 0.5
     block = [{'op': 'run', 'dt': dt, 'T': GEN.mulq(dt, n)}]
     if cont:
-        u = rng.choice(SI.units('TimeInterval'))
+        u = rng.choice(GEN.time_units_for(GEN.qsi(dt)))
         d2 = GEN.reexpress(dt, u)
         block.append({'op': 'run', 'dt': d2, 'T': GEN.reexpress(GEN.mulq(dt, rng.randint(3, 20)), u)})
     new_solver = rng.random() < 0.5
